@@ -2,7 +2,7 @@
    minify.Number(num, 0) and minify.Decimal(num, 0) from /repo/common.go, on the number grammar
    [+-]?(d+ .? d* | . d+)([eE][+-]?d+)?  (Decimal: without exponent).
    No proofs in this file; it is extracted to OCaml and compared with the Go code on every run. *)
-From MV Require Import Base.Bytes.
+From MV Require Import Base.MvBytes.
 
 Definition c0 : byte := 48.
 Definition cdot : byte := 46.
